@@ -22,6 +22,7 @@ Inductive c16_case :=
         (obs : option ogrid) (probes : list (list Q * (Z * Z)))
 | CRound (exact pyth : bool) (rep : string) (p1 p2 : list Q) (n_ : list Z) (nv : nat)
          (vd : option (list string)) (vals : list Q) (valid : list bool) (subs_ : osubs) (save_sub : bool)
+         (stale : option osubs)   (* side-car left at the path by an earlier save *)
          (file : option ogrid) (obs : option ofld)
 | CRead (g : ogrid) (side : option osubs) (obs : option ofld)
 | CLegacy (exact : bool) (coords : list (list Q)) (vec : bool) (rows : list (list Q))
@@ -199,14 +200,19 @@ Definition check_C16 (c : c16_case) : bool :=
           | _, _ => false
           end
       end
-  | CRound exact pyth rep p1 p2 n_ nv vd vals valid subs_ save_sub file obs =>
+  | CRound exact pyth rep p1 p2 n_ nv vd vals valid subs_ save_sub stale file obs =>
       match mkfield p1 p2 n_ subs_ nv vd vals valid with
       | Err _ => false
       | OK f =>
           match q_write f rep save_sub, file with
           | OK (g, side), Some o =>
               grid_rel (is_txt rep) exact pyth g o &&
-              res_rel (fld_rel true) (q_from_vtk (to_grid o) side) obs
+              (* the side-car on disk after the write: the new one, else whatever was there *)
+              let disk := match side with
+                          | Some sd => Some sd
+                          | None => option_map (map (mk_sub (vf_mesh f))) stale
+                          end in
+              res_rel (fld_rel true) (q_from_vtk (to_grid o) disk) obs
           | Err _, None => match obs with None => true | Some _ => false end
           | _, _ => false
           end
